@@ -6,6 +6,7 @@ import (
 	"math/big"
 	"strconv"
 	"strings"
+	"unicode/utf8"
 
 	"verif/harness/gen"
 	"verif/harness/impl"
@@ -212,6 +213,7 @@ func checkPadSeq(rep *Reporter, kind string, c byte, steps []padStep) {
 
 func linesC20(lines []string, rep *Reporter) {
 	for _, l := range lines {
+		checkSeqStable(rep, l)
 		t := strings.Split(l, " ")
 		if len(t) == 2 && t[0] == "Q" {
 			var steps []padStep
@@ -604,8 +606,36 @@ func runC06(t gen.Tier, r *gen.Rng, rep *Reporter) {
 	rep.Sample("P binary.5 enc 300 300 => width 5, decodes back to (300, 5) with and without trailing bytes")
 }
 
+// checkSeqStable: a `Q` line (operations on shared padders / encoder / prefixer singletons, results
+// read after the last one): every result must be what the same operation gives on its own — a
+// result that a later call changed, or that depends on an earlier call, breaks the per-call laws.
+func checkSeqStable(rep *Reporter, line string) {
+	t := strings.Split(line, " ")
+	if len(t) != 2 || t[0] != "Q" {
+		return
+	}
+	safely(rep, line, func() {
+		res := impl.Run(line)
+		subs := strings.Split(t[1], "|")
+		parts := strings.Split(res, " | ")
+		rep.Case(line)
+		if len(parts) != len(subs) {
+			return
+		}
+		for i, sub := range subs {
+			alone := impl.Run(strings.ReplaceAll(sub, ",", " "))
+			if alone != parts[i] {
+				rep.Viol("the result of an operation on a shared padder / encoder / prefixer depends on the calls before it or was changed by a call after it", line,
+					fmt.Sprintf("operation %d (%s): in the sequence %q, on its own %q", i+1, sub, parts[i], alone))
+				return
+			}
+		}
+	})
+}
+
 func linesC06(lines []string, rep *Reporter) {
 	for _, l := range lines {
+		checkSeqStable(rep, l)
 		t := strings.Split(l, " ")
 		if len(t) != 5 || t[0] != "P" || impl.Prefixer(t[1]) == nil {
 			continue
@@ -720,6 +750,19 @@ func checkEnc(rep *Reporter, e string, x []byte) {
 		if !dom {
 			if err == nil && (e == "bcd" || e == "lbcd" || e == "hexToBytes" || e == "berTag" || e == "ascii") {
 				rep.Viol("Encode accepted an out-of-domain value", line, fmt.Sprintf("%x", y))
+			}
+			if err == nil && e == "ebcdic1047" {
+				// the repertoire of code page 1047 is Latin-1: text that is not valid UTF-8 or has a
+				// character beyond U+00FF has no encoding
+				bad := !utf8.Valid(x)
+				for _, r := range string(x) {
+					if r > 0xFF {
+						bad = true
+					}
+				}
+				if bad {
+					rep.Viol("Encode accepted an out-of-domain value", line, fmt.Sprintf("%x (not text of the code page's repertoire)", y))
+				}
 			}
 			return
 		}
@@ -966,6 +1009,7 @@ func checkEbcdicTables(rep *Reporter) {
 
 func linesC07(lines []string, rep *Reporter) {
 	for _, l := range lines {
+		checkSeqStable(rep, l)
 		t := strings.Split(l, " ")
 		if len(t) < 4 || t[0] != "E" || impl.Encoders[t[1]] == nil {
 			continue
